@@ -276,7 +276,7 @@ def fmt_val(v):
     return str(v)
 
 
-def check_wrapper(rep, rule, body, facts, eff, callee_pred, mode_table, const_names=None):
+def check_wrapper(rep, rule, body, facts, eff, callee_pred, mode_table, restore_prefix=()):
     """mode_table: dict field-leaf-name -> expected int at the designated call.
     Returns number of restore obligations checked."""
     sr = SR(body, facts, eff).run()
@@ -285,7 +285,7 @@ def check_wrapper(rep, rule, body, facts, eff, callee_pred, mode_table, const_na
     where = '%s:%s %s' % (body.file, body.line, body.path)
     if not sr.at_return:
         rep.missing(rule, body.path + ':return', 'no normal return in wrapper')
-    stored = sorted(sr.stored)
+    stored = sorted(p for p in sr.stored if tuple(p[:len(restore_prefix)]) == tuple(restore_prefix))
     for path in stored:
         for bb, st in sr.at_return:
             v = sr.read_field(st, path)
